@@ -732,6 +732,32 @@ def run(eng: Engine, ck: Check):
     sn = [n for x in calls_on(enc.node, 'serialize_message') for n in c.nodes_for(x)]
     ck.ob('R-C01-FRAME', enc, enc.node, 'serialisation precedes obfuscation', bool(en) and bool(sn) and sn[0].id < en[0].id, '', construct='encode order')
 
+    from . import defs as _d_obf
+    _d_obf.obfuscation_reset_definition(eng, ck, 'R-C01-FRAME', 'encode / decode obfuscate iff `self.obfuscated`: the flag has to mean what the other end does')
+    # the bytes of one message reach the stream in one piece: several tasks send on one connection (replies, queued messages, the
+    # distributed fan-out) and nothing serialises them but the fact that write() is synchronous
+    wsites = [(f_, x) for f_ in repo.all_funcs() if f_.module.rel.startswith('network/') for x in calls_in(f_.node)
+              if call_name(x) == 'write' and isinstance(x.func, ast.Attribute) and unparse(x.func.value).endswith('_writer')]
+    ck.floor('R-C01-FRAME.write_sites', len(wsites), 1)
+    for f_ in {f_ for f_, _ in wsites}:
+        ck.visited(f_)
+        ws = [x for g_, x in wsites if g_ is f_]
+        c = eng.cfg(f_)
+        why = ''
+        for x in ws:
+            lp = next((a_ for a_ in ancestors(x) if isinstance(a_, (ast.For, ast.While, ast.AsyncFor))), None)
+            if lp is not None and (isinstance(lp, ast.AsyncFor) or any(isinstance(n_, (ast.Await, ast.AsyncWith, ast.AsyncFor)) for n_ in walk_local(lp))):
+                why = f'`{unparse(x)[:50]}` (line {x.lineno}) is repeated in a loop that suspends: another task\'s message can be written between two pieces'
+        for x in ws:
+            for y in ws:
+                if x is not y and c.nodes_for(x) and c.nodes_for(y):
+                    s_ = c.suspension_between(c.nodes_for(x)[0], c.nodes_for(y)[0])
+                    if s_ is not None:
+                        why = f'suspension at line {s_.lineno} between the writes at lines {x.lineno} and {y.lineno}'
+        holds_lock = any(isinstance(a_, ast.AsyncWith) and any('lock' in unparse(i_.context_expr).lower() for i_ in a_.items) for x in ws for a_ in ancestors(x))
+        ck.ob('R-C01-FRAME', f_, ws[0], f'{f_.name}: the bytes handed over for one message are written without a suspension point in between (or under a write lock): '
+              'frames of concurrent senders do not interleave, each length prefix is followed by its own bytes', not why or holds_lock, why, construct=f'{f_.name} single write')
+
     # ---- R-C01-OBFUSC: the decoder's key table is the encoder's key sequence (constant folding over key_amount = 1..32)
     od = eng.func(OBF, 'decode')
     oe = eng.func(OBF, 'encode')
